@@ -13,7 +13,10 @@ from vf.driver import ProofItem
 ID = "C01"
 LEVEL = "other"
 LEVEL_TEXT = ("Leaf contracts of the map machinery (linear index -> output position, interleaving of external/internal "
-              "axes, dump-key normalisation) are discharged deductively from the real source; the property itself - "
+              "axes, dump-key normalisation, which value each parameter of a function receives in a map - "
+              "_func_kwargs: bound, else given input, else upstream output read from the store, else default -, how "
+              "one result is split over the output names - _pick_output) are discharged deductively from the real "
+              "source; the property itself - "
               "Pipeline.map == MapSpec denotation - is a statement-level contract evaluated on the real Pipeline.map "
               "over generated programs with tagging bodies (bounded). 'other': proved leaves + bounded top level.")
 LEVEL_NOTE = ("Bounded: random valid programs of 1..3 (thorough 4) functions, rank<=2 (thorough 3), axis sizes 1..3 "
